@@ -1,6 +1,8 @@
 import OtelVerif.Model.C19
 import OtelVerif.Model.C19Exp
 import OtelVerif.Props.C03
+import OtelVerif.Lemmas.C19Exp
+import OtelVerif.Lemmas.C03ReplaySound
 /-!
 # C19 — self-telemetry item counters balance with what actually happened
 
@@ -695,5 +697,107 @@ theorem C19_exporter_trace_balance_full_fails : ¬ C19_exporter_trace_balance_fu
   intro h
   have := h [.es 0 [100, 101, 102, 103], .ee 0 true, .rej [100, 101, 102, 103], .es 1 [200, 201, 202], .ee 1 false, .acc [200, 201, 202]]
   revert this; decide
+
+/-! ### over the LTS: queue-size gauge, `wait_for_result` -/
+
+open OtelVerif.C03 in
+/-- **Queue-size gauge over the LTS** (memory queue, every schedule): what `Size()` returns — and the gauge observes — is the sum
+of the sizes of the enqueued requests whose `Done` has not fired: queued, in a consumer's hands, batched, waiting for a worker, in
+flight or in back-off.  (Unique item ids, non-empty requests; a persistent queue resets its size when everything was dispatched.) -/
+theorem C19_gauge_lts {s : State} (h : Reachable s) (hm : s.cfg.persistent = false) (hu : s.accepted.Nodup)
+    (hne : ∀ r ∈ s.reqs, r ≠ []) :
+    s.qsize = ((s.reqs.filter (fun r => !reqDone s.flights r)).map (reqSize s.cfg)).sum :=
+  gaugeInv_reachable h hm hu hne
+
+open OtelVerif.C03 in
+theorem le_failedOf {s : State} {fl : Flight} (hfl : fl ∈ s.flights) (hd : fl.st = .done) (ha : fl.attempts ≠ fl.failures + 1) :
+    fl.batch.length ≤ failedOf s := by
+  have hmem : fl ∈ s.flights.filter (fun fl => fl.st == .done && !Flight.finalOk fl) := by
+    simp [List.mem_filter, hfl, hd, Flight.finalOk, ha]
+  simp only [failedOf]
+  generalize s.flights.filter (fun fl => fl.st == .done && !Flight.finalOk fl) = l at hmem
+  induction l with
+  | nil => simp at hmem
+  | cons a l ih =>
+    simp only [List.mem_cons] at hmem
+    cases hmem with
+    | inl h => subst h; simp
+    | inr h => have := ih h; simp only [List.map_cons, List.sum_cons]; omega
+
+open OtelVerif.C03 in
+/-- the statement's exporter clause with `wait_for_result` (memory queue): sent + send-failed + enqueue-failed = given − stuck -/
+def C19_exporter_balance_wfr_full : Prop :=
+  ∀ s : State, Reachable s → s.phase = 5 → s.cfg.persistent = false → s.cfg.wfr = true →
+    sentOf s + failedOf s + enqFailedWfrOf s + (queueItems s.queue).length = s.accepted.length
+
+open OtelVerif.C03 in
+/-- exact law of the code: the items of the requests whose `Done` received an error are counted a second time -/
+theorem C19_exporter_wfr_double_count {s : State} (h : Reachable s) (hp : s.phase = 5) :
+    sentOf s + failedOf s + enqFailedWfrOf s + (queueItems s.queue).length = s.accepted.length + enqFailedWfrOf s := by
+  have := C19_exporter_once h hp; omega
+
+open OtelVerif.C03 in
+/-- proved part: histories in which no flight ended with an error balance also under `wait_for_result` -/
+theorem C19_exporter_balance_wfr_partial {s : State} (h : Reachable s) (hp : s.phase = 5) (hf : failedOf s = 0) :
+    sentOf s + failedOf s + enqFailedWfrOf s + (queueItems s.queue).length = s.accepted.length := by
+  have hz : enqFailedWfrOf s = 0 := by
+    simp only [enqFailedWfrOf]
+    split
+    · have hnone : s.results.filter (·.2) = [] := by
+        apply List.filter_eq_nil_iff.mpr
+        intro p hp' ht
+        obtain ⟨fl, hfl, hd, ha, hb⟩ := resInv_reachable h p hp' ht
+        have := le_failedOf hfl hd ha
+        have : 0 < fl.batch.length := List.length_pos_iff.mpr hb
+        omega
+      simp [hnone]
+    · rfl
+  have := C19_exporter_wfr_double_count h hp; omega
+
+/-- `wait_for_result`, disabled batcher: request `[1,2]` fails permanently, `[3]` is sent -/
+def demoWfr : List OtelVerif.C03.Label :=
+  [.offer [1, 2], .offer [3], .read 0, .sendSync 0, .expStart 0, .expEnd 0 .perm .drop, .read 0, .sendSync 0, .expStart 1,
+   .expEnd 1 .ok .drop, .shutRetry, .shutQueue, .exit 0, .join, .shutBatcher, .shutWait]
+
+open OtelVerif.C03 in
+/-- the full statement fails for the code as it is (given 3: sent 1, send-failed 2, enqueue-failed 2) -/
+theorem C19_exporter_balance_wfr_full_fails : ¬ C19_exporter_balance_wfr_full := by
+  intro hfull
+  cases hd : runFrom (init { persistent := false, batching := false, retry := false, wfr := true } 1 0 false) demoWfr with
+  | none =>
+    have : (runFrom (init { persistent := false, batching := false, retry := false, wfr := true } 1 0 false) demoWfr).isSome = true := by decide
+    simp [hd] at this
+  | some s =>
+    have hr : Reachable s := reachable_of_runFrom demoWfr (Reachable.init _ _ _ _) hd
+    have hv : (runFrom (init { persistent := false, batching := false, retry := false, wfr := true } 1 0 false) demoWfr).map
+        (fun s => (s.phase, s.cfg.persistent, s.cfg.wfr, sentOf s)) = some (5, false, true, 1) := by decide
+    have hw : (runFrom (init { persistent := false, batching := false, retry := false, wfr := true } 1 0 false) demoWfr).map
+        (fun s => (failedOf s, enqFailedWfrOf s, (queueItems s.queue).length, s.accepted.length)) = some (2, 2, 0, 3) := by decide
+    rw [hd] at hv hw
+    simp only [Option.map_some, Option.some.injEq, Prod.mk.injEq] at hv hw
+    obtain ⟨h1, h2, h3, h4⟩ := hv
+    obtain ⟨h5, h6, h7, h8⟩ := hw
+    have := hfull s hr h1 h2 h3
+    omega
+
+open OtelVerif.C03 OtelVerif.C03.Replay in
+/-- **Closing the loop.** The counters the exporter driver compares with the real meter provider (`prop lts`) are those of the state
+reached by replaying the recorded trace through `fire`; that state is reachable, so when the replay ends with `Shutdown` returned
+they balance: sent + send-failed + (still queued) = accepted — for every recorded trace and configuration. -/
+theorem C19_replayed_counters_balance (rc : RCfg) (t : List TEv) (hp : (replay rc t).s.phase = 5) :
+    sentOf (replay rc t).s + failedOf (replay rc t).s + (queueItems (replay rc t).s.queue).length = (replay rc t).s.accepted.length :=
+  C19_exporter_once (C03_replay_reachable rc t) hp
+
+open OtelVerif.C03 OtelVerif.C03.Replay in
+/-- the gauge comparison (`prop gaugelts`) is made with the `qsize` of a reachable state: `C19_gauge_lts` applies to it -/
+theorem C19_replayed_gauge (rc : RCfg) (t : List TEv)
+    (hm : (goUntilShutreq rc { s := init rc.cfg rc.nCons rc.workers rc.timer } t).s.cfg.persistent = false)
+    (hu : (goUntilShutreq rc { s := init rc.cfg rc.nCons rc.workers rc.timer } t).s.accepted.Nodup)
+    (hne : ∀ r ∈ (goUntilShutreq rc { s := init rc.cfg rc.nCons rc.workers rc.timer } t).s.reqs, r ≠ []) :
+    (goUntilShutreq rc { s := init rc.cfg rc.nCons rc.workers rc.timer } t).s.qsize =
+      (((goUntilShutreq rc { s := init rc.cfg rc.nCons rc.workers rc.timer } t).s.reqs.filter
+          (fun r => !reqDone (goUntilShutreq rc { s := init rc.cfg rc.nCons rc.workers rc.timer } t).s.flights r)).map
+        (reqSize (goUntilShutreq rc { s := init rc.cfg rc.nCons rc.workers rc.timer } t).s.cfg)).sum :=
+  C19_gauge_lts (C03_replay_prefix_reachable rc t) hm hu hne
 
 end OtelVerif.C19
